@@ -110,7 +110,9 @@ def datasets(draw, min_n=12, max_n=40, force_comp=None):
     n = len(cloud["cells"])
     ncomp = force_comp or draw(st.sampled_from([1, 1, 2]))
     noise = [draw(st.lists(gen.finite(-1, 1), min_size=n, max_size=n)) for _ in range(ncomp)]
-    weights = draw(st.one_of(st.none(), st.lists(gen.weights_values(n), min_size=ncomp, max_size=ncomp)))
+    weights = draw(st.one_of(st.none(), st.lists(gen.weights_values(n), min_size=ncomp, max_size=ncomp),
+                             # all weights equal to a constant other than 1 (they still rescale the damping of a damped estimator)
+                             st.sampled_from([0.01, 0.25, 4.0, 100.0]).map(lambda c: [[c] * n for _ in range(ncomp)])))
     return dict(cloud=cloud, ncomp=ncomp, noise=noise, weights=weights, amp=draw(st.sampled_from([0.05, 0.3, 1.0])))
 
 
